@@ -229,3 +229,12 @@ def test_known_C20_absorbing_exit_outside_inferred_state_list():
     from msdm.domains.gridmdp.windygridworld import WindyGridWorld
     with pytest.raises(KeyError):
         WindyGridWorld("@$.", feature_rewards={}).transition_matrix
+
+
+def test_fixed_F19_policy_iteration_batch_after_an_integer_discount():
+    from msdm.algorithms import PolicyIteration
+
+    def loop(g):
+        return Dict2MDP({0: {'a': {0: 1.0}}}, {(0, 'a'): -1.0}, {0: 1.0}, gamma=g)
+    b = PolicyIteration().batch_plan_on([loop(0), loop(0.9)])
+    assert float(b[1].state_value[0]) == pytest.approx(-10.0)
